@@ -261,6 +261,46 @@ func c04Padding(p *core.Prog, r *core.Run, m *echModel) {
 		}
 		fs := p.Facts(ret.Block())
 		for _, f := range fs {
+			// library form: slices.ContainsFunc(rest, func(b byte) bool { return b != 0 })
+			if f.Op == "true" && f.L.Op == "call" && (f.L.Name == "slices.ContainsFunc" || f.L.Name == "bytes.ContainsFunc") && len(f.L.Args) == 2 {
+				call, _ := f.L.Val.(*ssa.Call)
+				pred := f.L.Args[1].Fn
+				nonZero := pred != nil && len(core.Returns(pred)) > 0
+				if pred != nil {
+					for _, pr := range core.Returns(pred) {
+						e := p.X(pr.Results[0])
+						if !(e.Op == "bin" && e.Name == "!=" && e.Args[0].Op == "param" && e.Args[1].Name == "0") {
+							nonZero = false
+						}
+					}
+				}
+				var load *ssa.UnOp
+				if call != nil {
+					v := call.Call.Args[0]
+					for {
+						if ct, ok := v.(*ssa.ChangeType); ok {
+							v = ct.X
+							continue
+						}
+						break
+					}
+					load, _ = v.(*ssa.UnOp)
+				}
+				isBody, after := false, true
+				if load != nil && load.Op == token.MUL && p.CellRoot(load.X) == body {
+					isBody = true
+					for _, rd := range bodyReads {
+						if !core.Before(rd.Instr, load) {
+							after = false
+						}
+					}
+				}
+				inner := core.HasFact(fs, "==", `.*\.echExt\.Type`, "1")
+				found++
+				r.Check("C04.G7", "parseClientHello:padding-test", nonZero && isBody && after && inner, p.InstrPos(ret),
+					"ContainsFunc with a non-zero predicate (%v) over the bytes that follow the extensions block inside the hello body (cursor is the body cursor: %v, read after all body fields: %v, only for ECH type inner: %v) returns illegal_parameter", nonZero, isBody, after, inner)
+				continue
+			}
 			if f.Op != "!=" || f.R.Name != "0" {
 				continue
 			}
